@@ -139,6 +139,40 @@ class CollV:
         return f"{{x in {self.base} | " + " and ".join(ast.unparse(b) for _p, b in self.preds) + "}"
 
 
+class FuncV:
+    """A function value the interpreter does not call: a lambda or a nested def (its AST node is kept)."""
+    __slots__ = ("node",)
+
+    def __init__(self, node):
+        self.node = node
+
+    def __eq__(self, o):
+        return isinstance(o, FuncV) and o.node is self.node
+
+    def __hash__(self):
+        return hash(("F", id(self.node)))
+
+    def __repr__(self):
+        return "<lambda>" if isinstance(self.node, ast.Lambda) else f"<def {self.node.name}>"
+
+
+class SortedV:
+    """The result of sorted(base, key=..., reverse=...): a permutation of `base` (stable)."""
+    __slots__ = ("base", "key", "reverse", "node")
+
+    def __init__(self, base, key, reverse, node):
+        self.base, self.key, self.reverse, self.node = base, key, reverse, node
+
+    def __eq__(self, o):
+        return isinstance(o, SortedV) and o.node is self.node
+
+    def __hash__(self):
+        return hash(("S", id(self.node)))
+
+    def __repr__(self):
+        return f"sorted({self.base!r}, key={self.key!r}, reverse={self.reverse!r})"
+
+
 TRUE, FALSE, NONE = Const(True), Const(False), Const(None)
 
 
@@ -248,6 +282,18 @@ class Read(Ev):
     def __repr__(self):
         c = "" if self.consts is None else f" cmp {sorted(map(str, self.consts))}"
         return f"read {self.cls}.{self.attr} of {self.recv!r}{c} @{self.loc}"
+
+
+class KwRead(Ev):
+    """A constant-key subscript of the function's **kwargs (logged when the interpreter has `log_kw`)."""
+    kind = "kwread"
+
+    def __init__(self, key, node, func, stack):
+        super().__init__(node, func, stack)
+        self.key = key
+
+    def __repr__(self):
+        return f"kwargs[{self.key!r}] @{self.loc}"
 
 
 class Ret(Ev):
@@ -386,6 +432,9 @@ class Interp:
                 st.env[p] = self.value_for_type(p, ft.lookup(p, func.node))
                 if isinstance(st.env[p], Obj):
                     st.env[p].maybe_none = p in func.defaults
+        for k, v in bind.items():
+            if k not in st.env:
+                st.env[k] = v   # *args / **kwargs names
         return self.exec_block(func.body(), st, fr)
 
     def run_block(self, func, stmts, bind=None, heap=None, st=None):
@@ -591,6 +640,17 @@ class Interp:
         if isinstance(s, ast.While):
             return self.exec_while(s, st, fr)
         if isinstance(s, ast.Return):
+            val = s.value
+            inner = val.args[0] if isinstance(val, ast.Call) and isinstance(val.func, ast.Name) and val.func.id == "bool" and len(val.args) == 1 else val
+            if isinstance(inner, (ast.Compare, ast.BoolOp)) or (isinstance(inner, ast.UnaryOp) and isinstance(inner.op, ast.Not)) or (inner is not val):
+                if self.truth(inner, st, fr) is None:
+                    outs = []
+                    for st1, truth, forked in self.branch(inner, st, fr):
+                        v1 = Const(truth)
+                        if not fr.stack:
+                            st1.trace.append(Ret(v1, s, fr.func, fr.stack))
+                        outs.append((st1, ("return", v1)))
+                    return outs
             v = self.eval(s.value, st, fr, effects=True) if s.value is not None else NONE
             if not fr.stack:
                 st.trace.append(Ret(v, s, fr.func, fr.stack))
@@ -626,7 +686,10 @@ class Interp:
                     elif isinstance(tt, ast.Subscript):
                         self._mut_event(tt.value, "delitem", [], s, st, fr)
             return [(st, None)]
-        if isinstance(s, (ast.FunctionDef, ast.Import, ast.ImportFrom, ast.Global, ast.Nonlocal, ast.ClassDef)):
+        if isinstance(s, ast.FunctionDef):
+            st.env[s.name] = FuncV(s)
+            return [(st, None)]
+        if isinstance(s, (ast.Import, ast.ImportFrom, ast.Global, ast.Nonlocal, ast.ClassDef)):
             return [(st, None)]
         if isinstance(s, ast.Assert):
             return [(st, None)]
@@ -1253,6 +1316,9 @@ class Interp:
                     if isinstance(stp, Poly) and stp.is_const() and stp.const_value() == -1:
                         return ListV(list(reversed(base.items)), True, base.kind)
                 return Unk(f"{self.path_of(base, ast.unparse(e.value))}[{ast.unparse(e.slice)}]", fr.ft.type_of(e))
+            lk = getattr(self, "log_kw", None)
+            if lk and isinstance(e.value, ast.Name) and e.value.id == lk[0] and isinstance(e.slice, ast.Constant) and not self._quiet:
+                st.trace.append(KwRead(e.slice.value, e, fr.func, fr.stack))
             tag = f"{self.path_of(base, ast.unparse(e.value))}[{ast.unparse(e.slice)}]"
             return self.value_for_type(tag, fr.ft.type_of(e))
         if isinstance(e, ast.Call):
@@ -1260,7 +1326,7 @@ class Interp:
         if isinstance(e, (ast.ListComp, ast.GeneratorExp, ast.SetComp)):
             return self._eval_comp(e, st, fr)
         if isinstance(e, ast.Lambda):
-            return Unk("lambda")
+            return FuncV(e)
         if isinstance(e, ast.JoinedStr):
             return Unk("fstr", ("prim", "str"))
         if isinstance(e, ast.Starred):
@@ -1313,6 +1379,22 @@ class Interp:
                 return Poly.sym(f"({a!r})/({b!r})")
         if isinstance(a, ListV) and isinstance(b, ListV) and isinstance(op, ast.Add):
             return ListV(a.items + b.items, True, a.kind)
+        if isinstance(a, ListV) and isinstance(b, ListV) and isinstance(op, (ast.BitOr, ast.BitAnd, ast.Sub)):
+            # set algebra on known collections (elements compared as abstract values)
+            def has(lst, x):
+                return any(_same(x, y) for y in lst)
+            if isinstance(op, ast.BitOr):
+                items = list(a.items) + [x for x in b.items if not has(a.items, x)]
+            elif isinstance(op, ast.BitAnd):
+                items = [x for x in a.items if has(b.items, x)]
+            else:
+                items = [x for x in a.items if not has(b.items, x)]
+            return ListV(items, True, "set")
+        if isinstance(op, ast.BitOr) and isinstance(a, (CollV, ListV, Unk)) and isinstance(b, (CollV, ListV, Unk)):
+            # union of collections known only by their element facts: nothing is known about an arbitrary element
+            ta = a.typ if isinstance(a, (CollV, Unk)) else None
+            tb = b.typ if isinstance(b, (CollV, Unk)) else None
+            return Unk(f"union~{getattr(node, 'lineno', 0)}:{getattr(node, 'col_offset', 0)}", ta or tb)
         if isinstance(a, Const) and isinstance(b, Const) and isinstance(a.v, str) and isinstance(b.v, str) and isinstance(op, ast.Add):
             return Const(a.v + b.v)
         # arithmetic over unknowns stays symbolic when both are numeric-ish
@@ -1416,6 +1498,16 @@ class Interp:
                 rng = range(*ints)
                 if len(rng) <= 16:
                     return ListV([Poly.const(i) for i in rng], True, "list")
+        if fname == "zip" and len(e.args) >= 2 and not e.keywords:
+            cols = [self._eval_iterable(a, st, fr) for a in e.args]
+            if all(isinstance(c, ListV) for c in cols):
+                n = min(len(c.items) for c in cols)
+                return ListV([ListV([c.items[i] for c in cols], True, "tuple") for i in range(n)], True, "list")
+        if fname == "bool" and len(e.args) == 1:
+            t = self.truth(e.args[0], st, fr)
+            if t is not None:
+                return Const(t)
+            return Unk(ast.unparse(e), ("prim", "bool"))
         if fname == "sum" and len(e.args) == 1:
             inner = self._eval_iterable(e.args[0], st, fr)
             if isinstance(inner, ListV) and all(isinstance(x, Poly) for x in inner.items):
@@ -1433,6 +1525,14 @@ class Interp:
             sym = f"len({key})"
             st.bounds.setdefault(sym, (Fraction(0), None))
             return Poly.sym(sym)
+        if fname == "sorted" and len(e.args) == 1 and any(kw.arg == "key" for kw in e.keywords):
+            base = self.eval(e.args[0], st, fr)
+            keyv = self.eval(next(kw.value for kw in e.keywords if kw.arg == "key"), st, fr)
+            revn = next((kw.value for kw in e.keywords if kw.arg == "reverse"), None)
+            revv = self.eval(revn, st, fr) if revn is not None else FALSE
+            if isinstance(base, CollV):
+                return CollV(base.base, base.preds, base.typ, "list")  # element facts survive a permutation
+            return SortedV(base, keyv, revv, e)
         if fname in ("list", "tuple", "sorted", "set") and len(e.args) >= 1:
             inner = self._eval_iterable(e.args[0], st, fr)
             if isinstance(inner, CollV):
@@ -1471,10 +1571,10 @@ class Interp:
         callees, resolved = fr.ft.resolve_call(e)
         argvals = {}
         for i, a in enumerate(e.args):
-            argvals[i] = self.eval(a, st, fr, effects) if not isinstance(a, ast.Lambda) else Unk("lambda")
+            argvals[i] = self.eval(a, st, fr, effects)
         for kw in e.keywords:
             if kw.arg:
-                argvals[kw.arg] = self.eval(kw.value, st, fr, effects) if not isinstance(kw.value, ast.Lambda) else Unk("lambda")
+                argvals[kw.arg] = self.eval(kw.value, st, fr, effects)
         recv = None
         if isinstance(f, ast.Attribute):
             recv = self.eval(f.value, st, fr, effects)
